@@ -87,6 +87,7 @@ pub fn plan(prop: &str) -> Option<Plan> {
         "C04" => {
             p.name = "C04";
             p.w_drop_arena = 5;
+            p.w_drop_fault = 3;
             p.w_new_arena = 4;
             p.o_link_weak = 14;
             p.o_unlink = 12;
@@ -252,6 +253,7 @@ pub fn plan(prop: &str) -> Option<Plan> {
             p.w_new_arena = 4;
             p.w_settle = 8;
             p.w_drop_arena = 2;
+            p.w_drop_fault = 2;
             Plan {
                 prop: "C11",
                 profile: p,
